@@ -1415,7 +1415,7 @@ def replay(ck, path):
 
 def main():
     ck = Check("C01", "translation_validation")
-    ck.lean_stage(["VelaVerif.Props.C01", "VelaVerif.Props.C01Rewrites", "VelaVerif.Props.C01Rewrites2", "VelaVerif.Props.C01Wide",
+    ck.lean_stage(["VelaVerif.Props.C01", "VelaVerif.Props.C01Rewrites", "VelaVerif.Props.C01Rewrites2", "VelaVerif.Props.C01Rewrites3", "VelaVerif.Props.C01Wide",
                    "VelaVerif.Props.C01Packing", "VelaVerif.Props.C01Slice", "VelaVerif.Props.C01StridedSlice", "VelaVerif.Props.C01Softmax",
                    "VelaVerif.Props.C01SoftmaxLower"])
     if ck.replay_arg:
@@ -1428,7 +1428,7 @@ def main():
     import time
 
     t0 = time.time()
-    rw = c01_rewrites.run(ck, also=("c01_rewrites2",))
+    rw = c01_rewrites.run(ck, also=("c01_rewrites2", "c01_rewrites3"))
     ck.count("seconds_rewrite_streams", round(time.time() - t0))
     # STRIDED_SLICE specification streams (Spec/StridedSliceRef.lean vs NumPy; the real constraint_slice_ranges vs the Spec)
     import c01_ssmask
